@@ -100,6 +100,7 @@ const (
 	OpBV2Real // signed bv -> real
 	OpUBV2Real
 	OpUF // name in Name, args
+	OpRTruncBV // real -> signed bv (truncation toward zero), width in Sort
 	// FP (model F)
 	OpFPLt
 	OpFPLe
@@ -980,6 +981,8 @@ func (t *Term) body() string {
 		return fmt.Sprintf("(to_real (ite (bvslt %s #x%0*x) (- (bv2int %s) %s) (bv2int %s)))", j, w/4, 0, j, new(big.Int).Lsh(big.NewInt(1), uint(w)).String(), j)
 	case OpUBV2Real:
 		return fmt.Sprintf("(to_real (bv2int %s))", j)
+	case OpRTruncBV:
+		return fmt.Sprintf("((_ int2bv %d) (ite (>= %s 0.0) (to_int %s) (- (to_int (- %s)))))", t.Sort.W, j, j, j)
 	case OpUF:
 		if len(as) == 0 {
 			return t.Name
